@@ -64,6 +64,13 @@ def _new_handler(rng, prog, part, kind, name, safe):
         if ident and rng.random() < 0.3:
             # explicit `resp=` with an aliased result type the macro cannot look into
             h["resp_explicit"] = ident
+            if rng.random() < 0.4:
+                # ... or with a literal Result<Y, _> of another type: the attribute still names the response type
+                # (the handler then returns Y; the published table must say `resp`)
+                other = rng.choice([t for t in (T.U64, T.STRING, T.BOOL, T.COIN, T.PT) if RESP_IDENTS.get(t.rust) != ident])
+                h["resp_decl_ti"] = h["resp_ti"]
+                h["resp_ti"] = intern_type(prog, other)
+                h["resp_literal"] = True
     return h
 
 
@@ -160,9 +167,10 @@ def gen_program(rng, name, n_ifaces=None, customs=None, error=None, profile="gen
                 hs[1]["args"] = [dict(a) for a in hs[0]["args"]]
                 if kind == "query":
                     hs[1]["resp_ti"] = hs[0]["resp_ti"]
-                    hs[1].pop("resp_explicit", None)
-                    if hs[0].get("resp_explicit"):
-                        hs[1]["resp_explicit"] = hs[0]["resp_explicit"]
+                    for k in ("resp_explicit", "resp_decl_ti", "resp_literal"):
+                        hs[1].pop(k, None)
+                        if k in hs[0]:
+                            hs[1][k] = hs[0][k]
 
     # a wide handler: >= 10 parameters over two types, so that any permutation of the arguments type-checks
     if rng.random() < 0.3:
@@ -407,7 +415,7 @@ def gen_generic_program(rng, name, n_generics=None, n_ifaces=None, iface_assoc=T
                 t = _wrap_param(rng, gp[n])
                 if t.kind != "tuple":
                     h["resp_ti"] = intern_type(p, t)
-                    h.pop("resp_explicit", None)
+                    [h.pop(k_, None) for k_ in ("resp_explicit", "resp_decl_ti", "resp_literal")]
     # make sure a resp_only parameter really is used by some query
     for n in resp_only:
         qs = [h for h in c["handlers"] if h["kind"] == "query"]
@@ -416,7 +424,7 @@ def gen_generic_program(rng, name, n_generics=None, n_ifaces=None, iface_assoc=T
             qs = [_new_handler(rng, p, c, "query", nm, False)]
             c["handlers"].append(qs[0])
         qs[0]["resp_ti"] = intern_type(p, gp[n])
-        qs[0].pop("resp_explicit", None)
+        [qs[0].pop(k_, None) for k_ in ("resp_explicit", "resp_decl_ti", "resp_literal")]
     # A bound relating two parameters: the (single) predicate of `a` mentions `b`, so a message type that
     # uses `a` but not `b` must drop it.  sylvia accepts one `Ident: Bounds` predicate per parameter (it
     # derives helper-trait items from them), and the instantiate builder needs `a: Serialize` from that
@@ -460,5 +468,5 @@ def gen_generic_program(rng, name, n_generics=None, n_ifaces=None, iface_assoc=T
                 t = _wrap_param(rng, at[rng.choice(an)])
                 if t.kind != "tuple":
                     h["resp_ti"] = intern_type(p, t)
-                    h.pop("resp_explicit", None)
+                    [h.pop(k_, None) for k_ in ("resp_explicit", "resp_decl_ti", "resp_literal")]
     return p
